@@ -25,7 +25,7 @@ L {1,8} x shape {None,3,(2,3)} = 84.  quick: every history of depth <= 3 for all
 thorough: depth <= 5 for shape None (28), depth <= 4 for the array shapes (56), and
 depth <= 3 with the additional event generate(1e5) for shape None (28).
 Block part (both tiers, depth <= 3): shapes {None, 3} x L {1,8} x 3 (Fd,Ts) pairs (thorough:
-all 12 with Fd > 0); events generate {1,7,500}, skip {1,1023,1024,1025,4096,4097,65537},
+all 12 with Fd > 0); events generate {1,7,500}, skip {1,1023,1024,1025,4096,4097,65537 (shape None)},
 one large generate {1023,1024,1025,4096,4097,5000} as first or middle event, or
 {65537,100000} as first event (shape None), followed by every small request; extra
 differentials: ONE request and 500-sample chunks from an identically seeded twin.
@@ -127,7 +127,8 @@ def block_enabled(cfg, hist):
     ev = list(BLOCK_SMALL)
     if not big and len(hist) <= 1:
         ev += [("generate", n) for n in BLOCK_GEN_MEDIUM]
-    ev += [("skip", n) for n in BLOCK_SKIP]
+    # the 65537 skip makes every twin-from-the-start differential expensive: scalar generator only
+    ev += [("skip", n) for n in BLOCK_SKIP if n < BLOCK_GEN_HUGE[0] or cfg["shape"] is None]
     if not big and len(hist) == 0 and cfg["shape"] is None:
         ev += [("generate", n) for n in BLOCK_GEN_HUGE]
     return ev
